@@ -112,6 +112,7 @@ def run_tlc(module, cfg=None, workers=16, simulate=None, depth=None, seed=None, 
     cmd = ["java", "-XX:+UseSerialGC", "-Xmx3g"] if str(workers) == "1" else ["java", "-XX:+UseParallelGC", "-Xmx8g"]
     if deque:
         cmd.append("-Dtlc2.tool.queue.IStateQueue=StateDeque")
+    cmd.append(f"-Djava.io.tmpdir={metadir}")     # TLC's own tlc-* scratch dirs go with the metadir
     cmd += ["-cp", TLA_JAR, "tlc2.TLC", "-workers", str(workers), "-metadir", metadir,
             "-noGenerateSpecTE"]
     if cfg:
